@@ -132,6 +132,8 @@ def instances(tier, seed):
         out.append(dict(name="build  " + name, params=dict(op="build", spec=J(s), tier=tier), expect=exp_b))
         for n in _parse_lengths(s, tier):
             out.append(dict(name="parse%-2d %s" % (n, name), params=dict(op="parse", spec=J(s), n=n, tier=tier)))
+    for k in sorted(SPECIALS):
+        out.append(dict(name="special  " + k, params=dict(op="special", which=k, tier=tier), expect=["accept"]))
     # class-constructor spelling of every public integer name
     for name in sorted(FMT):
         out.append(dict(name="ctor   " + name, params=dict(op="ctor", name=name, tier=tier), expect=["accept"]))
@@ -148,10 +150,71 @@ def _kind_ok(C, exc, kind):
 NESTED_KINDS = ("select", "optional", "greedyrange")
 
 
+def _sp_const_ctx(ctx, C):
+    """a constant over a field whose width and byte order come from the context: every build encodes it for the context of THAT build"""
+    d = mk(C, "Struct('width'/Byte, 'little'/Flag, 'magic'/Const(0x0102, BytesInteger(this.width, swapped=this.little)))")
+    s2 = mk(C, "Sequence('n'/Byte, Const(1, BytesInteger(this.n)))")
+    for rnd in (1, 2):
+        w, little = ctx.choice("w%d" % rnd, [2, 3, 4]), ctx.choice("l%d" % rnd, [0, 1])
+        want = mkbytes([w, little] + ref.enc_int(0x0102, w, False, "little" if little else "big"))
+        r = api.outcome(d.build, dict(width=w, little=bool(little)))
+        ctx.check("build %d emits the constant in this build's width and byte order" % rnd, r.ok and ctx.fork(ctx.eq(r.value, want)))
+        back = api.outcome(d.parse, want)
+        ctx.check("parse %d accepts that encoding" % rnd, back.ok and back.value.magic == 0x0102)
+        r = api.outcome(s2.build, [w, None])
+        ctx.check("Sequence build %d" % rnd, r.ok and ctx.fork(ctx.eq(r.value, mkbytes([w] + [0] * (w - 1) + [1]))))
+    return "accept"
+
+
+def _sp_ragged_bits(ctx, C):
+    """a bit region whose width is not a whole number of bytes has no byte encoding: parse rejects every input"""
+    for src_ in ("Bitwise(Nibble)", "Bitwise(BitsInteger(12))", "BitStruct('a'/Nibble, 'b'/BitsInteger(7))", "BitStruct('flag'/Bit, 'value'/BitsInteger(16, signed=True))",
+                 "BitStruct('a'/Octet, 'b'/Bit, 'c'/Padding(2))", "Bitwise(Array(3, BitsInteger(3)))"):
+        d = mk(C, src_)
+        for n in (1, 2, 3):
+            data = ctx.bytes("data%d %s" % (n, src_), n)
+            r = api.outcome(d.parse, data)
+            ctx.check("%s rejects %d bytes with a ConstructError (got %s)" % (src_, n, "a value" if r.ok else type(r.exc).__name__), (not r.ok) and isinstance(r.exc, C.ConstructError))
+    return "accept"
+
+
+def _sp_keyword_members(ctx, C):
+    """members declared as keyword arguments are laid out in declaration order"""
+    v, ln, fl = ctx.int("version", 0, 65535), ctx.int("length", 0, 255), ctx.int("flags", 0, 2 ** 24 - 1)
+    d = mk(C, "Struct(version=Int16ub, length=Int8ub, flags=Int24ul)")
+    wire = mkbytes(ref.enc_int(v, 2, False, "big") + [ln] + ref.enc_int(fl, 3, False, "little"))
+    ctx.check("Struct(**kw) builds in declaration order", ctx.eq(d.build(dict(version=v, length=ln, flags=fl)), wire))
+    data = ctx.bytes("data", 6)
+    got = d.parse(data)
+    ctx.check("Struct(**kw) parses in declaration order",
+              api.and_terms([ctx.eq(got.version, data[0] * 256 + data[1]), ctx.eq(got.length, data[2]), ctx.eq(got.flags, data[3] + data[4] * 256 + data[5] * 65536)]))
+    ctx.check("and lists its members in that order", [k for k in got.keys() if not k.startswith("_")] == ["version", "length", "flags"])
+    d = mk(C, "Sequence(y=Int16ub, x=Int8ub)")
+    ctx.check("Sequence(**kw) builds in declaration order", ctx.eq(d.build([v, ln]), mkbytes(ref.enc_int(v, 2, False, "big") + [ln])))
+    d = mk(C, "Struct('magic'/Const(b'MZ'), tag=Int8ub, body=Int16ul)")
+    ctx.check("positional members come first, keyword members after them in order", ctx.eq(d.build(dict(tag=ln, body=v)), mkbytes([0x4d, 0x5a, ln] + ref.enc_int(v, 2, False, "little"))))
+    d = mk(C, "BitStruct(hi=Nibble, flag=Bit, pad=Padding(1), lo=BitsInteger(2))")
+    b = ctx.int("b", 0, 255)
+    got = d.parse(mkbytes([b]))
+    ctx.check("BitStruct(**kw) parses in declaration order", api.and_terms([ctx.eq(got.hi, b >> 4), ctx.eq(got.flag, (b >> 3) & 1), ctx.eq(got.lo, b & 3)]))
+    d = mk(C, "Struct(size=Int8ub, data=Bytes(this.size))")
+    k = ctx.choice("size", [0, 1, 3])
+    body = ctx.bytes("body", k)
+    ctx.check("a later keyword member sees an earlier one", ctx.eq(d.build(dict(size=k, data=body)), mkbytes([k]) + body))
+    return "accept"
+
+
+SPECIALS = {"constant over a context-sized field, built twice on one instance": _sp_const_ctx,
+            "bit regions that are not a whole number of bytes are rejected": _sp_ragged_bits,
+            "keyword-declared members keep their declaration order": _sp_keyword_members}
+
+
 def harness(ctx, C, p):
     op = p["op"]
     if op == "ctor":
         return _ctor(ctx, C, p)
+    if op == "special":
+        return SPECIALS[p["which"]](ctx, C)
     spec = T(p["spec"])
     d = mk(C, src(spec))
     if op == "build":
